@@ -620,6 +620,11 @@ func ConvertTileXYZsToExtendedSpatialIDs(request []*object.TileXYZ, zBaseExponen
 
 	extendedSpatialIDsMap := make(map[object.ExtendedSpatialID]bool)
 
+	// 出力垂直精度はrequestが空の場合も確認する
+	if !extendedSpatialIDCheckZoom(0, outputVZoom) {
+		return nil, errors.NewSpatialIdError(errors.InputValueErrorCode, fmt.Sprintf("extendSpatialID zoom level must be in 0-35: vZoom=%v", outputVZoom))
+	}
+
 	for _, r := range request {
 		if !extendedSpatialIDCheckZoom(r.HZoom(), outputVZoom) {
 			return nil, errors.NewSpatialIdError(errors.InputValueErrorCode, fmt.Sprintf("extendSpatialID zoom level must be in 0-35: hZoom=%v, vZoom=%v", r.HZoom(), outputVZoom))
